@@ -547,8 +547,12 @@ def part_predicates(res, script, post, tier, budget, rnd):
             break
         n = rnd.choice([3, 3, 4, 4, 5])
         kind, v = random_games(rnd, n, turn=r)          # the kinds take turns: every kind is visited in every run
-        if (rnd.random() < 0.5) if kind not in ("huge-opposite-parts", "near-additive-huge", "v0-small-among-huge") else (r // 18) % 3 != 2:
-            one(n, v, RT_DEFAULT, Fraction(0), TOL_DEFAULT, True, False, f"random-{kind}")
+        huge_kind = kind in ("huge-opposite-parts", "near-additive-huge", "v0-small-among-huge")
+        if (rnd.random() < 0.5) if not huge_kind else (r // 18) % 3 != 2:
+            # the huge kinds hold (half-)integers below 2^42: every float operation of the predicates is exact on them, and their
+            # margins (≥ 1/2) are far from every tolerance product — no "float rounding could decide" guard needed (it is relative to
+            # the largest magnitude and would drop exactly these games)
+            one(n, v, RT_DEFAULT, Fraction(0), TOL_DEFAULT, True, huge_kind, f"random-{kind}")
         else:
             one(n, v, rnd.choice([Fraction(0), Fraction(1, 8), Fraction(1, 2)]), rnd.choice([Fraction(0), Fraction(1, 2), Fraction(1)]),
                 rnd.choice([Fraction(0), Fraction(1, 2), Fraction(1), Fraction(-1, 2)]), False, True, f"random-{kind}-dyadic-tolerance")
